@@ -1,7 +1,19 @@
-/- Line-protocol engine for C05 — stub, to be filled in. -/
-import CV.Proto
+/-
+Line-protocol engine for C05 (transactions all-or-nothing and isolated): the shared store engine
+(CV.Engine.StoreCore: `txn <idx> <ops>` = TxnRW, dumps, reads) plus
+  txnro <op,op,…>        a read-only transaction (`Store.TxnRO`), same op syntax as `txn`
+-/
+import CV.Engine.StoreCore
 namespace CV.Engine.C05
-open CV
-def step (_ : Unit) (_toks : List String) : Unit × String := ((), "bad-op")
-def engine : Engine := { State := Unit, init := (), step := step }
+open CV CV.Store CV.Engine.StoreCore
+
+def step (s : Store.State) (toks : List String) : Store.State × String :=
+  match toks with
+  | ["txnro", ops] =>
+    match (decList ops).mapM parseTxnOp with
+    | some l => let (rs, es) := txnRO s l; (s, showResult (.txn rs es))
+    | none => (s, "bad-op")
+  | _ => StoreCore.step s toks
+
+def engine : Engine := { State := Store.State, init := Store.State.empty, step := step }
 end CV.Engine.C05
